@@ -156,7 +156,16 @@ def check_one(version, hist, line) -> list:
             # a presentation (whatever it carried as type, version string or description): then every
             # internal message type from that node with an ordinary payload
             follow += [f"{n_};255;3;0;{t};{p}" for t in range(0, 34) if t not in (0, 11) for p in (("1500",) if t != 2 else ("2.1",))]
+        if fl[2] == "0":
+            # ... and the node goes to sleep, the application parks a command for it, and it wakes by either announcement
+            follow += [f"{n_};255;3;0;32;500", f"{n_};255;3;0;22;1500", ("send", (int(n_), 3, 1, 0, 2, "parked")), f"{n_};255;3;0;22;1600", f"{n_};255;3;0;32;600", f"{n_};255;3;0;22;1700"]
         for fline in follow:
+            if isinstance(fline, tuple):
+                so = s.send(Message(*fline[1]))
+                if so.kind == "raise" and not isinstance(so.exc, AIOMySensorsError):
+                    bad(f"foreign-exception-later:{type(so.exc).__name__}", f"{out.kind}; then send{fline[1]} raised {type(so.exc).__name__}: {so.exc}")
+                    break
+                continue
             o = s.line(fline)
             if o.kind == "raise" and not isinstance(o.exc, AIOMySensorsError):
                 bad(f"foreign-exception-later:{type(o.exc).__name__}", f"{out.kind}; then the later line {fline!r} raised {type(o.exc).__name__}: {o.exc}")
